@@ -149,12 +149,111 @@ fn prefix_alias_probe(vd: &mut Verdicts) {
     }
 }
 
+/// a fresh Apple CP/M 2 volume holding the bystander `A.TXT`
+fn scratch_volume() -> Result<a2kit::fs::cpm::Disk, String> {
+    use a2kit::fs::DiskFS;
+    let img = a2kit::img::dsk_do::DO::create(35, 16);
+    let dpb = a2kit::bios::dpb::DiskParameterBlock::create(&a2kit::img::names::A2_DOS33_KIND);
+    let mut disk = a2kit::fs::cpm::Disk::from_img(Box::new(img), dpb, [2, 2, 3]).map_err(|e| e.to_string())?;
+    disk.format("", None).map_err(|e| e.to_string())?;
+    let mut f0 = disk.new_fimg(None, false, "A.TXT").map_err(|e| e.to_string())?;
+    f0.desequence(b"bystander");
+    disk.put(&f0).map_err(|e| e.to_string())?;
+    Ok(disk)
+}
+
+/// Which variant of the code is running (DESIGN.md section 2: variant by probe).  The model carries both variants of two
+/// pieces; the driver is told after every `fs open` (which resets its state):
+/// * `ifaceguard`: `write_file` refuses a file image that sets an interface attribute F5–F8 (`proposed_fixes/cpm-put-interface-flags.diff`)
+/// * `absidx`: `read_file` restarts the block count at every physical extent (`proposed_fixes/cpm-get-partial-extent.diff`);
+///   probed on a Kaypro 4 volume (EXM = 1) whose first directory entry is patched to use its first logical extent only
+fn variants() -> (bool, bool) {
+    use a2kit::fs::DiskFS;
+    static V: std::sync::OnceLock<(bool, bool)> = std::sync::OnceLock::new();
+    *V.get_or_init(|| {
+        let guard = guarded(|| -> Result<bool, String> {
+            let mut disk = scratch_volume()?;
+            let mut f = disk.new_fimg(None, false, "B.TXT").map_err(|e| e.to_string())?;
+            f.desequence(b"probe");
+            if f.access.len() != 11 { return Ok(false); }
+            f.access[4] |= 0x80;
+            Ok(disk.put(&f).is_err())
+        });
+        let absidx = guarded(|| -> Result<bool, String> {
+            let kind = a2kit::img::names::KAYPRO4_KIND;
+            let img = a2kit::img::imd::Imd::create(kind);
+            let dpb = a2kit::bios::dpb::DiskParameterBlock::create(&kind);
+            let mut disk = a2kit::fs::cpm::Disk::from_img(Box::new(img), dpb, [2, 2, 3]).map_err(|e| e.to_string())?;
+            disk.format("", None).map_err(|e| e.to_string())?;
+            let mut f = disk.new_fimg(None, false, "BIG.DAT").map_err(|e| e.to_string())?;
+            f.desequence(&vec![7u8; 40960]);
+            disk.put(&f).map_err(|e| e.to_string())?;
+            let mut b0 = disk.read_block("0").map_err(|e| e.to_string())?;
+            if b0.len() < 32 || b0[12] != 1 { return Err("unexpected directory".to_string()); }
+            b0[12] = 0;
+            for k in 8..16 { b0[16 + k] = 0; }
+            disk.write_block("0", &b0).map_err(|e| e.to_string())?;
+            let g = disk.get("BIG.DAT").map_err(|e| e.to_string())?;
+            Ok(g.chunks.contains_key(&16) && !g.chunks.contains_key(&24))
+        });
+        (matches!(guard, Ok(Ok(true))), matches!(absidx, Ok(Ok(true))))
+    })
+}
+
+/// Directed scenario, once per run (the generator never sets these bits): `put` of a file image whose `access` sets the
+/// interface attribute F5 (also F8) on a volume holding a bystander.  Strict oracle `cpm-put-interface-flags` (C02, C05): the put is
+/// refused — or, if it is accepted, the bystander is still fetched unchanged, the catalog still lists both files, and the new file
+/// can be fetched and deleted.  (As written the put was accepted and `build_files` then rejected the whole directory: every `get`,
+/// `catalog`, `delete`, `put` failed with "bad data format".)
+fn iface_flags_scenario(vd: &mut Verdicts) {
+    use a2kit::fs::DiskFS;
+    static DONE: std::sync::atomic::AtomicBool = std::sync::atomic::AtomicBool::new(false);
+    if vd.focus != Focus::C02 && vd.focus != Focus::C05 { return; }
+    if DONE.swap(true, std::sync::atomic::Ordering::SeqCst) { return; }
+    let res = guarded(|| -> Result<Option<String>, String> {
+        for bit in [4usize, 7] {
+            let mut disk = scratch_volume()?;
+            let mut f = disk.new_fimg(None, false, "B.TXT").map_err(|e| e.to_string())?;
+            f.desequence(b"with interface attribute");
+            if f.access.len() != 11 { return Err("access is not 11 bytes".to_string()); }
+            f.access[bit] |= 0x80;
+            let accepted = disk.put(&f).is_ok();
+            match disk.get("A.TXT") {
+                Ok(g) => if !g.sequence().starts_with(b"bystander") { return Ok(Some(format!("F{}: bystander A.TXT changed (put accepted: {})", bit + 1, accepted))); },
+                Err(e) => return Ok(Some(format!("F{}: put accepted: {}; get of the bystander A.TXT fails: {}", bit + 1, accepted, e))),
+            }
+            match disk.catalog_to_vec("/") {
+                Ok(rows) => if rows.len() != (if accepted { 2 } else { 1 }) { return Ok(Some(format!("F{}: put accepted: {}; catalog has {} rows", bit + 1, accepted, rows.len()))); },
+                Err(e) => return Ok(Some(format!("F{}: put accepted: {}; catalog fails: {}", bit + 1, accepted, e))),
+            }
+            if accepted {
+                if let Err(e) = disk.get("B.TXT") { return Ok(Some(format!("F{}: accepted file cannot be fetched: {}", bit + 1, e))); }
+                if let Err(e) = disk.delete("B.TXT") { return Ok(Some(format!("F{}: accepted file cannot be deleted: {}", bit + 1, e))); }
+            }
+        }
+        Ok(None)
+    });
+    let hist: Vec<String> = vec!["fresh cpm2/do volume: put A.TXT; put B.TXT with access[4] |= 0x80 (F5), resp. access[7] (F8)".to_string()];
+    for f in [Focus::C02, Focus::C05] {
+        match &res {
+            Ok(Ok(None)) => vd.v(f, true, "cpm-put-interface-flags", "", &[]),
+            Ok(Ok(Some(what))) => vd.v(f, false, "cpm-put-interface-flags", what, &hist),
+            Ok(Err(e)) => vd.v(f, false, "cpm-put-interface-flags", &format!("scenario could not run: {}", e), &hist),
+            Err(p) => vd.v(f, false, "cpm-put-interface-flags", &format!("scenario panicked: {}", p), &hist),
+        }
+    }
+}
+
 pub fn after_step(drv: &mut Drv, w: &mut World, vd: &mut Verdicts, desc: &str) {
     if std::env::var("A2V_NO_FSCPM").is_ok() { return; }
     prefix_alias_probe(vd);
+    iface_flags_scenario(vd);
     let op = w.last_op.clone();
-    // first call of this history: the model formats its own blank image
+    // first call of this history: the model is told which code variants run, then formats its own blank image
     if drv.ask("fsc state") == "empty" {
+        let (guard, absidx) = variants();
+        let _ = drv.ask(&format!("fsc variant ifaceguard {}", if guard { 1 } else { 0 }));
+        let _ = drv.ask(&format!("fsc variant absidx {}", if absidx { 1 } else { 0 }));
         let (vn, t) = format_args(w);
         if op.is_none() { tie(drv, w, vd, &format!("format {} {} ok", vn, t), None, "format"); }
         else { tie(drv, w, vd, &format!("init {} {}", vn, t), None, "format"); }
